@@ -173,27 +173,32 @@ def parseUInt (t : Text) (max : Nat) : Res Nat :=
   let v := digitsVal t 0
   if v ≤ max then .ok v else .err
 
+/-- `//34x` -/
+def pidSpecial (special : Text) : Res (Option Text) :=
+  if !special.isEmpty && blen special ≤ 34 then
+    (if special.all isSwiftX then .ok (some ('/' :: special)) else .err)
+  else .err
+
+/-- `/1!a/34x` and `/2!c/34x`: `p` is the position of the second slash -/
+def pidCoded (rem : Text) (p : Nat) : Res (Option Text) :=
+  if (blen (rem.take p) == 1 && (rem.take p).all Char.isAlpha) ||
+     (decide (1 ≤ blen (rem.take p)) && decide (blen (rem.take p) ≤ 2) && (rem.take p).all Char.isAlphanum) then
+    (if blen (rem.drop (p + 1)) > 34 then .err
+     else if (rem.drop (p + 1)).all isSwiftX then .ok (some (rem.take p ++ '/' :: rem.drop (p + 1))) else .err)
+  else .err
+
+/-- `/34x` -/
+def pidPlain (rem : Text) : Res (Option Text) :=
+  if !rem.isEmpty && blen rem ≤ 34 then (if rem.all isSwiftX then .ok (some rem) else .err) else .err
+
 /-- `parse_party_identifier(line)`: `Ok(None)` when the line does not start with `/`. -/
 def parsePartyIdentifier (t : Text) : Res (Option Text) :=
   match t with
+  | '/' :: '/' :: special => pidSpecial special
   | '/' :: rem =>
-    match rem with
-    | '/' :: special =>
-      if !special.isEmpty && blen special ≤ 34 then
-        (if special.all isSwiftX then .ok (some ('/' :: special)) else .err)
-      else .err
-    | _ =>
-      match findChar '/' rem with
-      | some p =>
-        let code := rem.take p
-        let id := rem.drop (p + 1)
-        if blen code == 1 && code.all Char.isAlpha then
-          (if blen id > 34 then .err else if id.all isSwiftX then .ok (some (code ++ '/' :: id)) else .err)
-        else if 1 ≤ blen code && blen code ≤ 2 && code.all Char.isAlphanum then
-          (if blen id > 34 then .err else if id.all isSwiftX then .ok (some (code ++ '/' :: id)) else .err)
-        else .err
-      | none =>
-        if blen rem ≤ 34 then (if rem.all isSwiftX then .ok (some rem) else .err) else .err
+    (match findChar '/' rem with
+     | some p => pidCoded rem p
+     | none => pidPlain rem)
   | _ => .ok none
 
 /-- `parse_name_and_address(lines, start, _)`: the lines from `start` on, each 1..35 SWIFT characters, 1..4 of them. -/
